@@ -61,6 +61,51 @@ def run(chk):
             chk.count(1, key=("dask", len(parts)))
             if not (np.allclose(dd, ex, rtol=1e-9, atol=1e-300) and np.array_equal(dl, lab)):
                 chk.fail("Dask chunks %s change transform/predict" % (parts,), dict(ctx, chunks=list(parts)))
+        # the same values in other containers / memory layouts: same distances, labels, statistics and the same short training run
+        if i % 6 == 4:
+            for lname, Xl in gen.layouts(X):
+                try:
+                    dl_ = np.asarray(km.transform(Xl))
+                    ll_ = np.asarray(km.predict(Xl))
+                    vl_, wl_ = km.get_variances_and_weights_for_each_cluster(Xl)
+                    kml = KMeansMachine(n_clusters=K, init_method=np.array(cents), max_iter=2).fit(Xl)
+                    km0 = KMeansMachine(n_clusters=K, init_method=np.array(cents), max_iter=2).fit(X)
+                except Exception as e:
+                    chk.fail("k-means transform / predict / statistics / fit on a %s input raises %r" % (lname, e), dict(ctx, layout=lname))
+                    continue
+                chk.count(1, key=("layout", lname))
+                if not (np.array_equal(dl_, dist) and np.array_equal(ll_, lab) and np.allclose(np.asarray(kml.centroids_), np.asarray(km0.centroids_), rtol=1e-12, atol=0)
+                        and np.allclose(np.asarray(wl_), np.asarray(km.get_variances_and_weights_for_each_cluster(X)[1]), rtol=1e-12, atol=0)):
+                    chk.fail("k-means results differ for the same values given as %s" % lname, dict(ctx, layout=lname))
+        # narrow integer / single-precision samples (quantised features): distances, labels, cluster variances and weights are those of the VALUES
+        if i % 6 == 1:
+            Xf = np.asarray(X, dtype=float)
+            lo_, hi_ = float(Xf.min()), float(Xf.max())
+            kq = 200.0 / max(hi_ - lo_, 1e-300)
+            for dt in (np.uint8, np.int16, np.float32):
+                Xq = (np.clip(np.rint((Xf - lo_) * kq + 20.0), 0, 255).astype(dt) if dt is not np.float32 else ((Xf - lo_) * kq + 20.0).astype(dt))
+                Xq64 = Xq.astype(np.float64)
+                kmq = KMeansMachine(n_clusters=K)
+                kmq.centroids_ = (np.asarray(cents, dtype=float) - lo_) * kq + 20.0
+                try:
+                    vq, wq = kmq.get_variances_and_weights_for_each_cluster(Xq)
+                    vq64, wq64 = kmq.get_variances_and_weights_for_each_cluster(Xq64)
+                    vqd, wqd = kmq.get_variances_and_weights_for_each_cluster(da.from_array(Xq, chunks=(max(1, N // 2), D)))
+                    dq, dq64 = np.asarray(kmq.transform(Xq)), np.asarray(kmq.transform(Xq64))
+                except Exception as e:
+                    chk.fail("k-means statistics / distances on %s samples raise %r" % (np.dtype(dt).name, e), dict(ctx, dtype=np.dtype(dt).name))
+                    continue
+                chk.count(1, key=("dtype", np.dtype(dt).name))
+                labq = np.asarray(kmq.predict(Xq64))
+                refv = np.array([Xq64[labq == k].var(axis=0) if np.any(labq == k) else np.zeros(D) for k in range(K)])
+                # integer samples are exact in binary64; single-precision samples are summed in single precision (results carry the input's precision)
+                tolq = 64 * eps * 255.0 ** 2 if dt is not np.float32 else 64 * float(np.finfo(np.float32).eps) * 255.0 ** 2
+                rq = 1e-9 if dt is not np.float32 else 1e-4
+                if not (np.allclose(np.asarray(vq), refv, rtol=rq, atol=tolq) and np.allclose(np.asarray(vq), np.asarray(vq64), rtol=rq, atol=tolq)
+                        and np.allclose(np.asarray(vqd), np.asarray(vq64), rtol=rq, atol=tolq) and np.allclose(np.asarray(wq), np.asarray(wq64))
+                        and np.allclose(np.asarray(wqd), np.asarray(wq64)) and np.allclose(dq, dq64, rtol=1e-12, atol=0) and np.all(np.asarray(vq) >= -tolq)):
+                    chk.fail("on %s samples the cluster variances / weights / distances are not those of the sample values (variances %s, expected %s)"
+                             % (np.dtype(dt).name, np.asarray(vq).tolist(), refv.tolist()), dict(ctx, dtype=np.dtype(dt).name, Xq=hexlist(Xq64)))
         # several lazy results evaluated in ONE graph (two arrays through the same machine, two machines on the same array): each is its own
         if N >= 4 and i % 3 == 1:
             h = N // 2
@@ -133,6 +178,28 @@ def run(chk):
                 chk.fail("GMM initialised from k-means does not start from the k-means centroids / floored cluster variances / weights", ctx)
             if np.shares_memory(g.means, kmt.centroids_):
                 chk.fail("GMM means alias the k-means centroids", ctx)
+    # ---- many clusters (more than 256) and small blocks: every cluster index is kept whatever the block size
+    for rep in range(1 if chk.tier == "quick" else 4):
+        g = gen.nprng(r)
+        Kb = 300
+        cb = np.stack([np.arange(Kb) % 20, np.arange(Kb) // 20], axis=1).astype(float) * 10.0
+        lab_b = g.integers(0, Kb, size=900)
+        lab_b[:Kb] = np.arange(Kb)
+        Xb = cb[lab_b] + g.normal(size=(900, 2)) * 0.5
+        kmb = KMeansMachine(n_clusters=Kb)
+        kmb.centroids_ = cb
+        want_w = np.bincount(lab_b, minlength=Kb) / 900.0
+        for chunk in (None, 100, 255, 7):
+            data_b = Xb if chunk is None else da.from_array(Xb, chunks=(chunk, 2))
+            try:
+                vb, wb = kmb.get_variances_and_weights_for_each_cluster(data_b)
+                wb = np.asarray(wb)
+                chk.count(1, key=("many-clusters", chunk))
+                if not (np.allclose(wb, want_w, rtol=1e-12, atol=0) and np.all(np.asarray(vb) >= -1e-9) and np.all(np.asarray(vb) < 5.0)):
+                    chk.fail("with %d clusters and row blocks of %s the cluster weights / variances are wrong (%d weights differ)" % (Kb, chunk, int(np.sum(~np.isclose(wb, want_w)))),
+                             {"K": Kb, "N": 900, "row_chunk": chunk, "seed_rep": rep})
+            except Exception as e:
+                chk.fail("cluster statistics with %d clusters and row blocks of %s raise %r" % (Kb, chunk, e), {"K": Kb, "row_chunk": chunk})
     bad, info = cq.run_cases("C20d", kt.IMPORTS, "kd_case", "kd_check", dterms)
     chk.correspondence("KMeansMachine.transform/predict ~ KF.distances/KF.predict (difference form, offsets up to 1e8)", len(dterms), bad, info)
     bad, info = cq.run_cases("C20v", kt.IMPORTS, "kv_case", "kv_check", vterms)
